@@ -184,4 +184,37 @@ CHECKS = {
         "level_text": "Seeded exploration of histories x capacities x strategies with the size bounds checked as invariants after every operation.",
         "level_note": "trusted base: the public size accessors (cache_size, QueryHashCache::len, HotTier::len)",
     },
+    "C06": {
+        "level": "exploration",
+        "design_ref": "DESIGN.md section 5/C06",
+        "engine": "sequential driver + E1 clock + paused tokio runtime",
+        "technique": "deterministic simulation: seeded histories of writes/deletes/overwrites/drains followed by searches through every entry point (timed variant on a paused runtime with zero/large timeouts and 0/1/large permits), every response judged against brute-force f64 distances on a reference model",
+        "rule": "seeded histories (4-34 steps quick, 4-70 thorough; a quarter start with a 90% tombstone prefix) over TieredEngine x metric x dimension {1,3,4,7,8,9,15,16,17,31,32,33,40,64} x strategies x query-cache capacity x hot limits x "
+                "timeouts {0,50,10000}/{0,1000,10000} ms x permits {0,1,1000}; searches via knn_search_with_ef_detailed_scoped (with/without ef), the batch variant, the cold backend (single/batch) and "
+                "knn_search_with_timeouts_with_ef_scoped; k in {1,2,3,4,5,10,100,1000}; vectors exactly normalised, far from normalised and inside the [0.98,1.02] band; queries repeated to hit the result cache. "
+                "Every response: <= k results, distinct ids, all in the model now, non-decreasing distance, reported distance inside the interval spanned by the cold-tier and hot-tier formulas on the stored vector "
+                "(+- 3e-5 + 3e-4 |d|; cache hits are judged against the query of the entry that was served); every acknowledged write still in the recent-write tier that is strictly closer than the k-th result is present "
+                "(not judged for degraded/timed/cache-hit responses). evaluations = responses judged. distinct_nontrivial = distinct hashes of the (result count, execution path) sequence of runs with >1 search.",
+        "assumptions": ["a timeout firing in the middle of a tier search is not scheduled deterministically (zero timeouts and pre-set conditions only)", "recall of the approximate index is not judged (C16 is not applicable)"],
+        "expected_probes": ["path_cache_hit", "path_hot_and_cold", "path_hot_only", "path_cold_only", "path_degraded", "load_shed", "drain_between_searches"],
+        "tiers": {"quick": {"runs_per_worker": 1000000, "budget_s": 35}, "thorough": {"runs_per_worker": 10000000, "budget_s": 600}},
+        "level_text": "Seeded exploration of histories x inputs x configurations; each search response judged exactly for soundness and recent-write completeness against a brute-force reference.",
+        "level_note": "trusted base: reference map + f64 distance reference with a stated tolerance; pin of stored vectors",
+    },
+    "C07": {
+        "level": "exploration",
+        "vsim_id": "C07",
+        "design_ref": "DESIGN.md section 5/C07",
+        "engine": "sequential driver (+ E2 for the searcher/writer race, see C07 race rows in notes)",
+        "technique": "deterministic simulation: the C06 histories with a harness-side mirror of every result the engine may have cached; each reported cache hit is checked for provenance (scope, k, served list) and freshness against the write log",
+        "rule": "the C06 histories (queries repeated from a small pool under scopes {0,1,2} with k ladders; writes placed near pooled queries at offsets {0,1e-3,0.05,0.3} to sit around the pruning bound; similarity threshold 1.0 and 0.95). "
+                "For every response reported as SearchExecutionPath::CacheHit: (1) provenance -- some mirrored result with the same scope, requested k >= k, a query at least threshold-similar and an identical k-prefix must exist "
+                "(else: foreign scope, larger-k reuse, fabricated); (2) freshness w.r.t. the most recent such entry -- since it was stored no returned id was deleted, overwritten, metadata-updated or bulk-loaded, no bulk load "
+                "happened, and no vector was written whose distance to the entry's query is strictly inside the entry's boundary. evaluations = responses judged (hits and misses). distinct_nontrivial as C06.",
+        "assumptions": ["similarity hits (threshold < 1, or parallel queries at threshold 1) serve another query's list by design and are judged relative to the served entry", "the searcher/writer interleaving clause is covered by the schedule-level check only for the engine paths exercised in C05/C08 programs"],
+        "expected_probes": ["path_cache_hit"],
+        "tiers": {"quick": {"runs_per_worker": 1000000, "budget_s": 35}, "thorough": {"runs_per_worker": 10000000, "budget_s": 600}},
+        "level_text": "Seeded exploration of search/write histories; every cache hit is decided exactly against a mirror of storable results and the write log.",
+        "level_note": "trusted base: the mirror of storable results, the write log, the f64 distance reference",
+    },
 }
